@@ -44,13 +44,18 @@ Definition plain_atom (a : atom) : bool :=
 (* ---------------------------------------------------------------------------------------- *)
 (* the stack *)
 
+Lemma all_empty_lookup : forall p k, all_empty k = true -> stk_lookup p k = None.
+Proof.
+  induction k as [|c r IH]; simpl; auto.
+  destruct c; simpl; try discriminate. auto.
+Qed.
+
 Lemma ns_for_prefix_plain : forall k a, plain_atom a = true ->
   ns_for_prefix k (Some a) = stk_lookup (Some a) k.
 Proof.
-  intros k a Ha. unfold ns_for_prefix. destruct (all_empty k) eqn:E.
-  - clear Ha. induction k as [|c r IH]; simpl in *; auto.
-    destruct c; simpl in *; try discriminate. auto.
-  - destruct a; simpl in Ha; try discriminate; reflexivity.
+  intros k a Ha. unfold ns_for_prefix.
+  destruct a; simpl in Ha; try discriminate;
+    (destruct (all_empty k) eqn:E; [symmetry; apply all_empty_lookup; assumption | reflexivity]).
 Qed.
 
 Lemma ctx_lookup_in : forall p c u, ctx_lookup p c = Some u -> In (p, u) c.
@@ -100,7 +105,7 @@ Lemma unique_loop_fresh_aux : forall fuel k c,
   ns_for_prefix k (Some (AGen (unique_loop fuel k c))) = None.
 Proof.
   induction fuel as [|f IH]; intros k c Hlt; [lia|].
-  simpl. destruct (ns_for_prefix k (Some (AGen c))) eqn:E; [|exact E].
+  cbn [unique_loop]. destruct (ns_for_prefix k (Some (AGen c))) eqn:E; [|exact E].
   apply IH.
   rewrite ns_for_prefix_plain in E by reflexivity.
   apply stk_lookup_in in E.
@@ -123,7 +128,7 @@ Qed.
 
 Lemma unique_loop_ge : forall fuel k c, c <= unique_loop fuel k c.
 Proof.
-  induction fuel as [|f IH]; intros k c; simpl; [lia|].
+  induction fuel as [|f IH]; intros k c; cbn [unique_loop]; [lia|].
   destruct (ns_for_prefix k (Some (AGen c))); [|lia].
   specialize (IH k (c + unique_counter_step)). unfold unique_counter_step in *. lia.
 Qed.
